@@ -94,9 +94,26 @@ def main():
     ap.add_argument("--replay")
     ap.add_argument("--warm")
     ap.add_argument("--no-cache", action="store_true")
+    ap.add_argument("--env", help="developer mode: run the analyses of ONE environment (no proofs, no evidence)")
     a = ap.parse_args()
     seed = int(os.environ.get("VERIF_SEED", "0"))
     t0 = time.time()
+    if a.env:
+        b = B.build()
+        if not b["ok"]:
+            print(b["log"][-2500:], b["driver_log"][-1500:])
+            print("BUILD FAILED:", b["failed"])
+        from harness import envkit
+        res = envkit.run_env(a.env, a.tier if a.tier in ("quick", "thorough") else "quick", seed)
+        bad = 0
+        for p, x in sorted(res.items()):
+            if x.evaluations or x.failures:
+                print(p, "evaluations", x.evaluations, "distinct", len(x.distinct), "failures", sum(v for k, v in x.dist.items() if k.startswith("fail:")))
+            for f in x.failures[:4]:
+                bad += 1
+                print("    FAIL:", f["what"], json.dumps(core.jsonable(f["where"]))[:200])
+                print("          ", json.dumps(core.jsonable(f["replay"]))[:700])
+        return 1 if bad else 0
     if a.warm:
         rc, out = gen()
         b = B.build()
